@@ -325,8 +325,10 @@ class CommandManager(object):
         with self.plock:
             self.pause.remove(threading.current_thread().ident)
             self.plock.notify()
-            with self.qlock:
-                self.qlock.notify_all()
+        # Do not hold plock while acquiring qlock: the solver thread takes
+        # them in the order qlock -> plock in wait_for_cmd.
+        with self.qlock:
+            self.qlock.notify_all()
 
     def get_result(self, lock_id):
         ''' get the result of a previously queued command '''
